@@ -1,7 +1,10 @@
 #!/bin/sh
 # usage: tools/trymutant.sh <property> <patch> [extra simcheck args]
-# Applies a patch to /repo, runs the property's quick check, reverts. For the sensitivity catalogue.
-P=$1; PATCH=$2; shift 2
-git -C /repo apply "$(realpath "$PATCH")" || { echo "patch does not apply"; exit 3; }
-/verif/bin/simcheck run -property "$P" "$@" 2>&1 | grep -E "violation class|^simcheck: C|NONDET|tool|failed" | cut -c1-260
-git -C /repo checkout -- .
+# Applies a patch to a scratch worktree of /repo (never to /repo itself), runs the property's
+# check against it (VERIF_REPO), removes the worktree. Evidence/replays go to a scratch dir.
+P=$1; PATCH=$(realpath "$2"); shift 2
+WT=$(mktemp -d /tmp/mutwt-XXXXXX); OUT=$(mktemp -d /tmp/mutout-XXXXXX)
+git -C /repo worktree add -q --detach "$WT" HEAD || exit 3
+if ! git -C "$WT" apply "$PATCH"; then echo "patch does not apply"; git -C /repo worktree remove --force "$WT"; rm -rf "$OUT"; exit 3; fi
+VERIF_REPO="$WT" VERIF_OUT_DIR="$OUT" ${VERIF_DIR:-/verif}/bin/simcheck run -property "$P" "$@" 2>&1 | grep -E "violation class|^simcheck: C|NONDET|tool|failed|watchdog" | cut -c1-220
+git -C /repo worktree remove --force "$WT"; rm -rf "$OUT"
